@@ -77,12 +77,13 @@ func init() {
 			return []string{"release"}
 		},
 		Required: []string{"kind/uint", "kind/uintptr", "kind/int", "kind/bool", "kind/complex128", "kind/string", "kind/slice", "kind/array", "kind/map",
-			"kind/ptr", "kind/interface", "kind/struct", "nil/ptr", "nil/interface", "nil/slice", "nil/map", "empty/slice", "empty/map", "nil/argument", "stat/avg", "named"},
+			"kind/ptr", "kind/interface", "kind/struct", "nil/ptr", "nil/interface", "nil/slice", "nil/map", "empty/slice", "empty/map", "nil/argument", "stat/avg", "named", "large-containers"},
 		Families: func(c *mon.Config) []mon.Family {
 			return []mon.Family{
 				{Name: "scalar-positions", N: len(c20Scalars) * 8, Run: c20ScalarPositions},
 				{Name: "named", N: c.Pick(200, 20000), Run: c20NamedTypes},
 				{Name: "random-types", N: c.Pick(40000, 2500000), Run: c20Random},
+				{Name: "large-containers", N: c.Pick(120, 20000), Run: func(w *mon.W, idx int) { c20RandomWith(w, idx, true) }},
 			}
 		},
 	})
@@ -96,6 +97,7 @@ type c20Gen struct {
 	shape uint64
 	ptrs  map[reflect.Type][]reflect.Value // pool for shared pointees
 	psize map[uintptr]int
+	big   bool // large containers near the top of the value (hundreds of elements, long strings)
 }
 
 func (g *c20Gen) typ(d int) reflect.Type {
@@ -186,6 +188,9 @@ func (g *c20Gen) fill(v reflect.Value, d int, asKey bool) int {
 		if r.Intn(3) == 0 {
 			s += string(gen.ZooBytes(r, r.Intn(9)))
 		}
+		if g.big && d <= 3 && r.Intn(4) == 0 {
+			s += string(gen.ZooBytes(r, 1000+r.Intn(9000)))
+		}
 		v.SetString(s)
 		g.shape = gen.Hash64(g.shape, uint64(len(s)))
 		w.Bucket("kind/string")
@@ -203,6 +208,9 @@ func (g *c20Gen) fill(v reflect.Value, d int, asKey bool) int {
 			return c20Slice
 		}
 		n := 1 + r.Intn(4)
+		if g.big && d <= 1 {
+			n = 100 + r.Intn(300)
+		}
 		v.Set(reflect.MakeSlice(t, n, n+r.Intn(3)))
 		g.shape = gen.Hash64(g.shape, uint64(n))
 		sum := c20Slice
@@ -273,6 +281,9 @@ func (g *c20Gen) fill(v reflect.Value, d int, asKey bool) int {
 		m := reflect.MakeMap(t)
 		sum := c20Map
 		n := 1 + r.Intn(3)
+		if g.big && d <= 1 {
+			n = 50 + r.Intn(150)
+		}
 		for i := 0; i < n; i++ {
 			k := reflect.New(t.Key()).Elem()
 			ks := g.fill(k, d+1, true)
@@ -571,9 +582,25 @@ func c20NamedTypes(w *mon.W, idx int) {
 	w.Sample(func() interface{} { return mon.D{"type": "props.c20Outer", "expected": exp} })
 }
 
-func c20Random(w *mon.W, idx int) {
-	g := &c20Gen{r: w.Rng, w: w, ptrs: map[reflect.Type][]reflect.Value{}, psize: map[uintptr]int{}}
+func c20Random(w *mon.W, idx int) { c20RandomWith(w, idx, false) }
+
+func c20RandomWith(w *mon.W, idx int, big bool) {
+	g := &c20Gen{r: w.Rng, w: w, ptrs: map[reflect.Type][]reflect.Value{}, psize: map[uintptr]int{}, big: big}
+	if big {
+		w.Bucket("large-containers")
+	}
 	t := g.typ(1 + w.Rng.Intn(5))
+	if big {
+		// make sure the top of the value is a container
+		switch w.Rng.Intn(3) {
+		case 0:
+			t = reflect.SliceOf(g.typ(2))
+		case 1:
+			t = reflect.MapOf(g.keyType(), g.typ(2))
+		default:
+			t = reflect.ArrayOf(257+w.Rng.Intn(300), g.typ(1))
+		}
+	}
 	v := reflect.New(t).Elem()
 	exp := g.fill(v, 1, false)
 	x := v.Interface()
